@@ -321,39 +321,48 @@ def check_r08c(repo, rep, uni):
             if d == UT + '.convert_output_data':
                 a = call.args[1] if len(call.args) > 1 else None
                 ok = False
-                if isinstance(a, ast.Name):
-                    for s in model.walk_shallow(f.node):
-                        if isinstance(s, ast.Assign) and any(
-                                isinstance(t, ast.Name) and t.id == a.id
-                                for t in s.targets):
-                            v = s.value
-                            ok = isinstance(v, ast.Call) and v.args and \
-                                isinstance(v.args[0], ast.Constant) and \
-                                v.args[0].value == '#iter'
+                if a is not None:
+                    # the limiter expression, locals and one-expression
+                    # helpers looked through: <context>('#iter', <engine>)
+                    v = norm.inline_simple_calls(
+                        repo, yi, norm.subst_locals(f.node, a,
+                                                    only_pure=False))
+                    ok = isinstance(v, ast.Call) and bool(v.args) and \
+                        isinstance(v.args[0], ast.Constant) and \
+                        v.args[0].value == '#iter'
                 rep.ob('R08c', '%s/limiter' % f.key, ok,
                        'YaqlInterface must finalise through the #iter '
                        'limiter', loc=yi.loc(call),
                        construct=model.norm(call))
 
 
-def check_r08d(repo, rep):
-    mod = repo.module('yaql.language.runner')
-    fi = mod.func('call')
+def _result_returns(repo, mod, fi, depth=0):
+    """[(return node, ok, why)] for every return of a value in fi: the value
+    passed through utils.limit_memory_usage on the way, in fi itself or in
+    a module-level helper whose result is returned as it is."""
     g = cfgmod.CFG(fi.node)
-    rets = [n for n in g.nodes if n.kind == 'stmt' and isinstance(
-        n.ast, ast.Return) and n.ast.value is not None]
-    n = 0
-    for r in rets:
-        if not isinstance(r.ast.value, ast.Name):
-            # returning the delegate's value directly: no room for a check
+    out = []
+    for r in [n for n in g.nodes if n.kind == 'stmt' and isinstance(
+            n.ast, ast.Return) and n.ast.value is not None]:
+        v = r.ast.value
+        if isinstance(v, ast.Call) and isinstance(v.func, ast.Name) and \
+                depth < 3:
+            h = mod.functions.get(v.func.id)
+            if h is not None and h.parent_func is None:
+                sub = _result_returns(repo, mod, h, depth + 1)
+                ok = bool(sub) and all(o for _, o, _ in sub)
+                out.append((r.ast, ok, 'hands the result of %s on, which '
+                            '%s' % (h.name, 'checks it' if ok else
+                                    'does not apply the quota on every '
+                                    'path')))
+                continue
+        if not isinstance(v, ast.Name):
             calls = [c for c in model.calls_in(r.ast)]
-            rep.ob('R08d', '%s/return' % fi.key, not calls,
-                   'runner.call returns %s without applying the memory '
-                   'quota to the result' % model.norm(r.ast.value),
-                   loc=mod.loc(r.ast), construct=model.norm(r.ast))
-            n += 1
+            out.append((r.ast, not calls,
+                        'returns %s without applying the memory quota to '
+                        'the result' % model.norm(v)))
             continue
-        name = r.ast.value.id
+        name = v.id
         quota_nodes = []
         for node in g.nodes:
             for c in cfgmod.node_calls(node):
@@ -362,14 +371,24 @@ def check_r08d(repo, rep):
                         model.names_loaded(c):
                     quota_nodes.append(node)
         ok = any(g.dominates(q, r) for q in quota_nodes)
-        n += 1
-        rep.ob('R08d', '%s/return[%s]' % (fi.key, name), ok,
-               'runner.call can return `%s` on a path that does not pass '
-               'through utils.limit_memory_usage(engine, (1, %s)): a value '
-               'larger than yaql.memoryQuota is handed to the caller' % (
-                   name, name), loc=mod.loc(r.ast),
-               construct=model.norm(r.ast))
-    rep.floor('runner.call result returns', n, 1)
+        out.append((r.ast, ok,
+                    'can return `%s` on a path that does not pass through '
+                    'utils.limit_memory_usage(engine, (1, %s))' % (
+                        name, name)))
+    return out
+
+
+def check_r08d(repo, rep):
+    mod = repo.module('yaql.language.runner')
+    fi = mod.func('call')
+    res = _result_returns(repo, mod, fi)
+    for node, ok, why in res:
+        rep.ob('R08d', '%s/return[%s]' % (fi.key, model.norm(
+            node.value)[:30]), ok,
+            'runner.call %s: a value larger than yaql.memoryQuota is '
+            'handed to the caller' % why, loc=mod.loc(node),
+            construct=model.norm(node))
+    rep.floor('runner.call result returns', len(res), 1)
 
 
 def check_r08e(repo, rep):
